@@ -54,6 +54,16 @@ pub fn replay(cases: &str, verdicts: &str) {
             };
             let g1 = run(&[t]);
             v.check(judge(&g1, 1), variant, &class, &c, json!(g1.as_ref().map(|r| fjs(r))));
+            // the abscissa axis rescaled by a power of two (exact): same answer (Inv_ScaleInvariant)
+            if c["fam"] != "steep" && v.cases % 2 == 0 {
+                for e in [-70i32, 45] {
+                    let f = 2f64.powi(e);
+                    let xs: Vec<f64> = x.iter().map(|a| a * f).collect();
+                    let md = mode_of(&c["mode"]);
+                    let g = guard(|| if variant == "checked" { interp1d_linear(&xs, &y, &[t * f], md).to_vec() } else { interp1d_linear_unchecked(&xs, &y, &[t * f], md).to_vec() });
+                    v.check(judge(&g, 1), &format!("{} axis-rescaled", variant), &class, &json!({"case": c, "axis_scale_log2": e}), json!(g.as_ref().map(|r| fjs(r))));
+                }
+            }
             // several targets in one call: each answered independently (first knot in the middle)
             let g3 = run(&[t, x[0], t]);
             v.check(judge(&g3, 3), &format!("{} multi", variant), &class, &c, json!(g3.as_ref().map(|r| fjs(r))));
